@@ -158,15 +158,17 @@ const MATE_SEEDS: &[&str] = &[
 pub struct Target {
     pub fen: String,
     pub class: Class,
-    /// true for the generated family of busy positions (searched with fewer cache histories in quick)
+    /// true for the generated families (searched with fewer cache histories in quick)
     pub busy: bool,
+    /// quick tier: 0 = fresh cache only, 1 = the short list of histories, 2 = all 21
+    pub level: u8,
 }
 
 /// Deterministic generator of busy positions (fixed LCG seed, NOT re-randomised per run): used
 /// once, offline, to produce `mate_family.txt`; every listed FEN is re-classified by the solver
 /// at run time, so the file is only a list of candidates.
-pub fn generate(count: usize, seed: u64) -> Vec<(String, &'static str)> {
-    fn candidate(seed: u64, k: u64) -> Option<(String, &'static str)> {
+pub fn generate(count: usize, seed: u64, minor_only: bool) -> Vec<(String, &'static str)> {
+    fn candidate(seed: u64, k: u64, minor_only: bool) -> Option<(String, &'static str)> {
         let mut x = seed ^ k.wrapping_mul(0x9E3779B97F4A7C15) ^ 0xD1B54A32D192ED03;
         let mut rnd = move |m: u64| -> u64 {
             x ^= x << 13;
@@ -183,20 +185,40 @@ pub fn generate(count: usize, seed: u64) -> Vec<(String, &'static str)> {
         }
         p.sq[wk] = super::oracle::K;
         p.sq[bk] = -super::oracle::K;
-        let n = 5 + rnd(12) as usize;
-        let kinds = [1i8, 1, 1, 1, 1, 2, 2, 3, 3, 4, 4, 5];
-        for _ in 0..n {
-            let sq = rnd(64) as usize;
-            if p.sq[sq] != 0 {
-                continue;
+        if minor_only {
+            // endings without pawns, rooks and queens: one side has two or three minor pieces,
+            // the other at most one (mates exist although most of these endings are drawn)
+            let strong: i8 = if rnd(2) == 0 { 1 } else { -1 };
+            let n_strong = 2 + rnd(2) as usize;
+            let n_weak = rnd(2) as usize;
+            for (n, sign) in [(n_strong, strong), (n_weak, -strong)] {
+                let mut placed = 0;
+                while placed < n {
+                    let sq = rnd(64) as usize;
+                    if p.sq[sq] != 0 {
+                        continue;
+                    }
+                    p.sq[sq] = sign * (2 + rnd(2) as i8);
+                    placed += 1;
+                }
             }
-            let kind = kinds[rnd(kinds.len() as u64) as usize];
-            if kind == 1 && (sq < 8 || sq >= 56) {
-                continue;
+            p.white = strong > 0;
+        } else {
+            let n = 5 + rnd(12) as usize;
+            let kinds = [1i8, 1, 1, 1, 1, 2, 2, 3, 3, 4, 4, 5];
+            for _ in 0..n {
+                let sq = rnd(64) as usize;
+                if p.sq[sq] != 0 {
+                    continue;
+                }
+                let kind = kinds[rnd(kinds.len() as u64) as usize];
+                if kind == 1 && (sq < 8 || sq >= 56) {
+                    continue;
+                }
+                p.sq[sq] = if rnd(2) == 0 { kind } else { -kind };
             }
-            p.sq[sq] = if rnd(2) == 0 { kind } else { -kind };
+            p.white = rnd(2) == 0;
         }
-        p.white = rnd(2) == 0;
         if p.in_check(!p.white) || p.legal_moves().is_empty() {
             return None;
         }
@@ -219,7 +241,7 @@ pub fn generate(count: usize, seed: u64) -> Vec<(String, &'static str)> {
                     let mut local = vec![];
                     let mut k = block * BLOCK + t;
                     while k < (block + 1) * BLOCK {
-                        if let Some((f, l)) = candidate(seed, k) {
+                        if let Some((f, l)) = candidate(seed, k, minor_only) {
                             local.push((k, f, l));
                         }
                         k += threads;
@@ -238,7 +260,8 @@ pub fn generate(count: usize, seed: u64) -> Vec<(String, &'static str)> {
             }
         }
         block += 1;
-        if out.iter().filter(|(_, l)| *l == "mate-in-2").count() >= count || block > 2000 {
+        let enough = if minor_only { out.iter().filter(|(_, l)| *l != "avoidable-threat").count() >= count } else { out.iter().filter(|(_, l)| *l == "mate-in-2").count() >= count };
+        if enough || block > 4000 {
             break;
         }
     }
@@ -276,7 +299,7 @@ pub fn targets(tier: &str) -> Vec<Target> {
         }
         let c = classify(&p);
         if c.interesting() {
-            v.push(Target { fen: p.fen(), class: c, busy: false });
+            v.push(Target { fen: p.fen(), class: c, busy: false, level: 2 });
         }
     }
     // keep the class mix: take round-robin from the three classes up to the cap
@@ -298,24 +321,30 @@ pub fn targets(tier: &str) -> Vec<Target> {
         k += 1;
     }
     out.sort_by(|a, b| a.fen.cmp(&b.fen));
-    // the generated family of busy positions (see `generate`); every FEN is re-classified here
+    // the generated families (see `generate`); every FEN is re-classified here. Quick tier: the
+    // first positions of each class get the short list of cache histories, ALL the others are
+    // searched from a fresh cache (a mate missed on a fresh cache is the most common failure)
     let (n2, n1, na) = if thorough { (1500, 300, 300) } else { (70, 15, 15) };
     let mut taken = [0usize; 3];
-    for line in include_str!("mate_family.txt").lines() {
-        let Some((label, fen)) = line.split_once('\t') else { continue };
-        let k = match label {
-            "mate-in-2" => 0,
-            "mate-in-1" => 1,
-            _ => 2,
-        };
-        if taken[k] >= [n2, n1, na][k] {
-            continue;
+    for (file, minor) in [(include_str!("mate_family.txt"), false), (include_str!("mate_family_minor.txt"), true)] {
+        if minor {
+            taken = [0; 3];
         }
-        let Ok(p) = Pos::from_fen(fen) else { continue };
-        let c = classify(&p);
-        if c.interesting() {
+        for line in file.lines() {
+            let Some((label, fen)) = line.split_once('\t') else { continue };
+            let k = match label {
+                "mate-in-2" => 0,
+                "mate-in-1" => 1,
+                _ => 2,
+            };
+            let Ok(p) = Pos::from_fen(fen) else { continue };
+            let c = classify(&p);
+            if !c.interesting() {
+                continue;
+            }
+            let level = if taken[k] < [n2, n1, na][k] / if minor { 3 } else { 1 } { 1 } else { 0 };
             taken[k] += 1;
-            out.push(Target { fen: p.fen(), class: c, busy: true });
+            out.push(Target { fen: p.fen(), class: c, busy: true, level });
         }
     }
     out
@@ -356,6 +385,7 @@ pub fn worker(args: &Args, w: &Worker) -> i32 {
     let thorough = args.tier == "thorough";
     let hs_full = histories();
     let hs_busy_quick = histories_quick_busy();
+    let hs_fresh: Vec<Vec<u8>> = vec![vec![]];
     let mut hs_thorough = histories();
     hs_thorough.extend(histories_long());
     if w.shard == 0 {
@@ -365,7 +395,17 @@ pub fn worker(args: &Args, w: &Worker) -> i32 {
     let mut idx = 0;
     for t in &ts {
         let Ok(pos) = Pos::from_fen(&t.fen) else { continue };
-        let hs: &Vec<Vec<u8>> = if thorough { &hs_thorough } else if t.busy { &hs_busy_quick } else { &hs_full };
+        let hs: &Vec<Vec<u8>> = if thorough && t.level > 0 {
+            &hs_thorough
+        } else if thorough {
+            &hs_full
+        } else {
+            match t.level {
+                0 => &hs_fresh,
+                1 => &hs_busy_quick,
+                _ => &hs_full,
+            }
+        };
         for depth in [3u8, 4] {
             for h in hs {
                 idx += 1;
